@@ -18,3 +18,15 @@ func At(point, key string) {
 		Yield(point, key)
 	}
 }
+
+// YieldChan, if non-nil, is called at schedule points that precede a receive
+// from a channel, so that a simulator can resume the goroutine only once the
+// receive cannot block.
+var YieldChan func(point, key string, ch <-chan struct{})
+
+// AtChan marks a schedule point right before a receive from ch.
+func AtChan(point, key string, ch <-chan struct{}) {
+	if YieldChan != nil {
+		YieldChan(point, key, ch)
+	}
+}
